@@ -268,15 +268,14 @@ class ResourcePeriodicallyUnavailable(ResourceConstraint):
                         )
                     ]
 
-                    if self.start > 0:
-                        conds.append(end_task_i <= self.start)
+                    # the rule is only active after start (0 by default): this also
+                    # exempts the intervals parked at a negative date, i.e. tasks
+                    # that are not scheduled or workers that are not selected
+                    conds.append(end_task_i <= self.start)
                     if self.end is not None:
                         conds.append(start_task_i >= self.end)
 
-                    if len(conds) > 1:
-                        self.set_z3_assertions(z3.Or(*conds))
-                    else:
-                        self.set_z3_assertions(*conds)
+                    self.set_z3_assertions(z3.Or(*conds))
 
         if not resource_assigned:
             raise AssertionError(
@@ -536,16 +535,14 @@ class ResourcePeriodicallyInterrupted(ResourceConstraint):
                 # the activity window (start, end) applies to each task on its own
                 core = z3.And(*conds)
 
-                mask = [core]
-                if self.start > 0:
-                    mask.append(end_task_i <= self.start)
+                # the rule is only active after start (0 by default): this also exempts
+                # the intervals parked at a negative date, i.e. tasks that are not
+                # scheduled or workers that are not selected
+                mask = [core, end_task_i <= self.start]
                 if self.end is not None:
                     mask.append(start_task_i >= self.end)
 
-                if len(mask) > 1:
-                    self.set_z3_assertions(z3.Or(*mask))
-                else:
-                    self.set_z3_assertions(*mask)
+                self.set_z3_assertions(z3.Or(*mask))
 
         if not resource_assigned:
             raise AssertionError(
